@@ -148,7 +148,7 @@ func appendNanoValue(buf *[]byte, v slog.Value, colorful bool) {
 func appendNanoSource(buf *[]byte, pc uintptr) {
 	f, _ := runtime.CallersFrames([]uintptr{pc}).Next()
 	idx, first := 0, false
-	for idx = len(f.File) - 1; idx > 0; idx-- {
+	for idx = len(f.File) - 1; idx >= 0; idx-- { // idx ends at -1 when the path has fewer than two slashes
 		if f.File[idx] == '/' {
 			if first {
 				break
